@@ -97,7 +97,7 @@ func callNextReader(c *Conn) (mt int, r io.Reader, err error, closed bool) {
 // VerifH_C15_reader: arbitrary byte stream, arbitrary fragmentation, optional injected
 // stream error, arbitrary read limit, a script of NextReader / partial Read / drain steps.
 func VerifHT_C15_reader_script() {
-	c15Script(8, 3, -1, true, true, 0)
+	c15Script(5, 3, -1, true, true, 0)
 }
 
 // Quick variants: the same oracle with a fixed call pattern each.
@@ -106,7 +106,7 @@ func VerifHT_C15_reader_t_next_read_next() { c15Script(10, 3, 0b010, false, fals
 func VerifHT_C15_reader_t_next_read_read() { c15Script(14, 3, 0b110, false, false, 5) }
 func VerifHT_C15_reader_t_fault_next_next() { c15Script(11, 2, 0b00, true, false, 3) }
 func VerifHT_C15_reader_t_fault_next_read() { c15Script(14, 2, 0b10, true, false, 5) }
-func VerifHT_C15_reader_symfrag() { c15Script(7, 3, 0b010, false, true, 0) }
+func VerifHT_C15_reader_symfrag() { c15Script(5, 3, 0b010, false, true, 0) }
 func VerifH_C15_reader_next_read_read() { c15Script(12, 3, 0b110, false, false, 3) }
 func VerifH_C15_reader_fault_next_next() { c15Script(10, 2, 0b00, true, false, 1) }
 func VerifH_C15_reader_fault_next_read() { c15Script(12, 2, 0b10, true, false, 2) }
